@@ -136,6 +136,11 @@ func (r *timeoutDelimitedReader) readDelimitedMessageRaw() ([]byte, error) {
 
 func (r *timeoutDelimitedReader) read(numBytes int) ([]byte, error) {
 	data := make([]byte, numBytes)
+	if numBytes == 0 {
+		// An empty message is complete as is. Don't call Read: some readers
+		// (like pipes) block even when asked for zero bytes.
+		return data, nil
+	}
 	var offs int
 	for {
 		numRead, err := r.in.Read(data[offs:])
